@@ -529,6 +529,12 @@ def unbound_type(d):
     return m.group(1) if m else None
 
 
+def blank_ticks(d):
+    """Signature form of a difference class: quoted program values blanked."""
+    import re
+    return re.sub(r"`[^`]*`", "`…`", d)
+
+
 def norm_msg(m):
     import re
     m = re.sub(r"\d+", "N", m or "")
